@@ -37,6 +37,9 @@ func c18Path(c *c18Case, i int) string {
 		return fmt.Sprintf("a/b%d/e%d%s", i, i, suf)
 	case 3:
 		return fmt.Sprintf("d%d/node%s", i, suf)
+	case 5:
+		// dots in directory and file names: alias and artifact path are cut at the LAST dot
+		return fmt.Sprintf("conf.d/v1.2/e%d.prod.v2%s", i, suf)
 	case 4:
 		if i <= 1 {
 			// same directory, same stem, different suffix
@@ -178,7 +181,7 @@ func c18Enumerate(tier string, yield func(any)) {
 		for {
 			am := make([]int, n)
 			for {
-				for layout := 0; layout < 4; layout++ {
+				for _, layout := range []int{0, 1, 2, 3, 5} {
 					allZero := true
 					for _, m := range am {
 						if m != 0 {
@@ -253,7 +256,7 @@ func c18Enumerate(tier string, yield func(any)) {
 		}
 		for {
 			for suf := 1; suf < len(c18Suffixes); suf++ {
-				for layout := 0; layout < 3; layout++ {
+				for _, layout := range []int{0, 1, 2, 5} {
 					yield(&c18Case{N: n, Issuer: append([]int{}, iss...), AMode: make([]int, n), Layout: layout, Suffix: suf, Foreign: true, CLI: suf == 1 && layout == 1})
 				}
 			}
@@ -408,7 +411,7 @@ func init() {
 	register(&engine.Check{
 		ID:    "C18",
 		Level: "model_checking",
-		Rule: "every issuer function issuer:[n]->{none,0..n-1,undefined} for n<=4 (quick) / n<=6 (thorough); for n<=3 additionally every alias-mode vector in {file-derived, explicit unique, explicit = next entity's alias, explicit = next entity's file stem}^n x 4 directory layouts and 6 suffix/letter-case variants x 3 layouts; for n in {2,3} every issuer function with two config files sharing directory and stem under 6 suffix pairs (alias collision); foreign files present. " +
+		Rule: "every issuer function issuer:[n]->{none,0..n-1,undefined} for n<=4 (quick) / n<=6 (thorough); for n<=3 additionally every alias-mode vector in {file-derived, explicit unique, explicit = next entity's alias, explicit = next entity's file stem}^n x 5 directory layouts (incl. dots in directory and file names) and 6 suffix/letter-case variants x 4 layouts; for n in {2,3} every issuer function with two config files sharing directory and stem under 6 suffix pairs (alias collision); foreign files present. " +
 			"Each case builds the directory, runs Open+Plan+BulkUpdate on simfs (and the built CLI binary for the flagged subset) and compares with the model valid <=> all issuers defined, acyclic, aliases unique. non-trivial = distinct (issuer function, alias modes, layout, suffix) case that reached the verdict comparison",
 		Bound:       map[string]string{"entities": "quick<=4, thorough<=6", "alias/layout/suffix variants": "n<=3"},
 		Assumptions: []string{"file stems are distinct per directory and non-empty (a.yaml + a.yml sharing a.pem is outside the statement's quantifier)", "keys are P-224 to keep generation cheap; C18 does not depend on the key type"},
